@@ -138,7 +138,7 @@ def gen_s1(seed, corpus, ref, instr_frac=0.1, sa_frac=0.0):
         'families': fams, 'clients': clients, 'gran': gran, 'scope': scope,
         'cat_mode': _weighted(rng, [('shared', 7), ('client', 2), ('op', 1)]),
         'rnd_mode': _weighted(rng, [('shared', 6), ('client', 2), ('op', 2)]),
-        'meta_share': rng.random() < 0.6, 'tree_share': rng.random() < 0.2,
+        'meta_share': rng.random() < 0.6, 'tree_share': rng.random() < 0.2, 'scribble': rng.random() < 0.25,
         'strategy': _strategy(rng, est), 'sched_seed': rng.randrange(1 << 30),
         'faults': [], 'gcs_at': [],
     }
@@ -204,7 +204,7 @@ def gen_s2(seed, corpus, ref):
         'families': fams, 'clients': [ops], 'gran': 'line', 'scope': ['repo'],
         'cat_mode': _weighted(rng, [('shared', 8), ('op', 2)]),
         'rnd_mode': _weighted(rng, [('shared', 8), ('op', 2)]),
-        'meta_share': rng.random() < 0.7,
+        'meta_share': rng.random() < 0.7, 'scribble': rng.random() < 0.3,
         'strategy': {'kind': 'none'}, 'sched_seed': 0, 'faults': [], 'gcs_at': [],
     }
     if rng.random() < 0.5:
@@ -321,7 +321,7 @@ def gen_s2_long(seed, corpus, ref=None):
     spec = {
         'cmd': 'sim', 'property': 'C20', 'sub': 'S2', 'seed': seed, 'hashseed': hashseed_for(seed), 'families': [label],
         'clients': [ops], 'gran': 'line', 'scope': ['repo'], 'cat_mode': _weighted(rng, [('shared', 8), ('op', 2)]),
-        'rnd_mode': _weighted(rng, [('shared', 8), ('op', 2)]), 'meta_share': rng.random() < 0.7,
+        'rnd_mode': _weighted(rng, [('shared', 8), ('op', 2)]), 'meta_share': rng.random() < 0.7, 'scribble': rng.random() < 0.3,
         'strategy': {'kind': 'none'}, 'sched_seed': 0, 'faults': [], 'gcs_at': [], 'lazy_events': True, 'long': True,
     }
     if rng.random() < 0.6:
@@ -361,6 +361,7 @@ def gen_family_history(seed, corpus, fam):
         'cmd': 'sim', 'property': 'C20', 'sub': 'S2', 'seed': seed, 'hashseed': hashseed_for(seed), 'families': ['famhist:' + fam],
         'clients': [lst + second], 'gran': 'line', 'scope': ['repo'], 'cat_mode': 'shared', 'rnd_mode': 'shared', 'meta_share': True,
         'strategy': {'kind': 'none'}, 'sched_seed': 0, 'faults': [], 'gcs_at': [], 'lazy_events': True, 'long': True, 'famhist': True,
+        'scribble': True,
     }
 
 
